@@ -828,6 +828,13 @@ fn class_of(imp: &str, exp: &str) -> &'static str {
     }
 }
 
+fn count_arg(cx: &mut Ctx, arg: &Arg) {
+    if let Arg::Str(s) = arg {
+        cx.rep.count(&format!("name-arg:{}", if s.is_empty() { "empty" } else if !s.is_ascii() { "non-ascii" } else if s.contains('\0') { "interior-NUL" }
+            else if s.len() > 64 { "ascii-too-long" } else if s.len() == 64 { "ascii-exactly-64" } else { "ascii-fits" }));
+    }
+}
+
 /// Input-distribution counters: where the register lies relative to the end of the address
 /// space, which enumerants / string classes the decoders met.
 fn classify(cx: &mut Ctx, name: &str, base: u64, imp: &str) {
@@ -885,6 +892,7 @@ fn do_acc(cx: &mut Ctx, img: &Image, name: &str, base: u64, cap: u64, broken: bo
     cx.rep.count(&format!("acc/{src}"));
     cx.rep.count(&format!("result:{}", if res == "panic" { "panic" } else if res.starts_with("err") { &res } else if dev.log.is_empty() { "ok-no-access" } else { "ok" }));
     classify(cx, name, base, &imp);
+    count_arg(cx, arg);
     match oracle(name, base, cap, arg, img, broken) {
         None => {
             // the tables say this receiver cannot exist (its capability register is unaddressable)
@@ -924,6 +932,7 @@ fn do_rt(cx: &mut Ctx, img: &Image, setter: &str, getter: &str, base: u64, cap: 
     let canon = format!("rt {setter} {base} {cap} {}", arg.wire());
     cx.rep.case(&canon, s1 == "ok ()" && s2.starts_with("ok") && dev.log.len() == 2);
     cx.rep.count(&format!("rt/{src}"));
+    count_arg(cx, arg);
     cx.rep.count(&format!("rt-result:{}", if s1 == "panic" || s2 == "panic" { "panic" } else if s1.starts_with("err") { &s1 } else if dev.log.is_empty() { "ok-unsupported" } else { "ok" }));
     // oracle: expectation for the setter on `img`, for the getter on the updated image
     let e1 = oracle(setter, base, cap, arg, img, false).unwrap();
@@ -1171,6 +1180,61 @@ fn gen_arg(rng: &mut Rng, name: &str) -> Arg {
     }
 }
 
+/// Exhaustive sweeps of the small enumerant / bit-field domains, run on every check:
+/// CURRENT_SPEED 0..=63, every one-hot value and its neighbours; all 64 file-format x 8 file-type
+/// values of the manifest file-info word; all 256 alignment exponents; version words over the
+/// boundary sets of their fields.
+fn sweeps(cx: &mut Ctx) {
+    let base = 0x4_0000u64;
+    let with = |off: u64, v: u32| Image { seed: 0xC13, segs: vec![(base + off, v.to_le_bytes().to_vec())] };
+    let mut speeds: Vec<u32> = (0..=63).collect();
+    for k in 0..32 {
+        let h = 1u32 << k;
+        speeds.extend([h, h.wrapping_add(1), h.wrapping_sub(1), h | 1u32 << ((k + 1) % 32), h | 1u32 << ((k + 5) % 32)]);
+    }
+    speeds.extend([u32::MAX, u32::MAX - 1, 0x8000_0000]);
+    for v in speeds {
+        do_acc(cx, &with(0x40, v), "Sbrm.current_speed", base, 0, false, &Arg::None, "sweep-speed");
+    }
+    for ct in 0..64u32 {
+        for ft in 0..8u32 {
+            for (hi, rsv) in [(0x0101u32, 0u32), (0xFFFF, 0x7F), (0x00FF, 0x01), (0xFF00, 0x40)] {
+                do_acc(cx, &with(0x04, hi << 16 | ct << 10 | rsv << 3 | ft), "ManifestEntry.file_info", base, 0, false, &Arg::None, "sweep-file-info");
+            }
+        }
+    }
+    for e in 0..=255u32 {
+        for low in [0u32, 0x00FF_FFFF] {
+            do_acc(cx, &with(0x00, e << 24 | low), "Sirm.payload_size_alignment", base, 0, false, &Arg::None, "sweep-alignment");
+        }
+    }
+    let f16 = [0u32, 1, 2, 0xFF, 0x100, 0x7FFF, 0x8000, 0xFFFE, 0xFFFF];
+    for ma in f16 {
+        for mi in f16 {
+            do_acc(cx, &with(0x00, ma << 16 | mi), "Sbrm.u3v_version", base, 0, false, &Arg::None, "sweep-version");
+            // ABRM is absolute: plant at address 0
+            let img = Image { seed: 0xC13, segs: vec![(0, (ma << 16 | mi).to_le_bytes().to_vec())] };
+            do_acc(cx, &img, "Abrm.gencp_version", 0, 0, false, &Arg::None, "sweep-version");
+        }
+    }
+    let f8 = [0u32, 1, 0x7F, 0x80, 0xFE, 0xFF];
+    for ma in f8 {
+        for mi in f8 {
+            for sub in f16 {
+                do_acc(cx, &with(0x00, ma << 24 | mi << 16 | sub), "ManifestEntry.genicam_file_version", base, 0, false, &Arg::None, "sweep-version");
+            }
+        }
+    }
+    for v in [0u32, 1, 2, 3, u32::MAX, 0xFFFF_FFFE] {
+        do_acc(cx, &with(0x04, v), "Sirm.is_stream_enable", base, 0, false, &Arg::None, "sweep-bit");
+    }
+    // manifest tables ending exactly at / just past the end of the address space
+    for (tb, n) in [(u64::MAX - 71, 1u64), (u64::MAX - 71, 2), (u64::MAX - 70, 1), (u64::MAX - 7, 0), (u64::MAX - 7, 1), (u64::MAX - 135, 2), (u64::MAX - 135, 3), (0, (1u64 << 58) - 1), (0, 1u64 << 58), (8, (1u64 << 58) - 1)] {
+        let img = Image { seed: 0xC13, segs: vec![(tb, n.to_le_bytes().to_vec())] };
+        do_acc(cx, &img, "ManifestTable.entries", tb, 0, false, &Arg::None, "sweep-table-end");
+    }
+}
+
 fn run_replay(cx: &mut Ctx, r: &Value, src: &str) {
     let img = Image::from_json(&r["img"]);
     let base: u64 = r["base"].as_str().unwrap().parse().unwrap();
@@ -1218,6 +1282,8 @@ fn main() {
     let mut names: Vec<&str> = ALL.to_vec();
     names.sort();
     cx.rep.expect("c13 names".into(), format!("ok {}", names.join(",")));
+
+    sweeps(&mut cx);
 
     let rounds: u64 = if args.thorough() { 256 * 24 } else { 256 * 2 };
     for round in 0..rounds {
